@@ -757,6 +757,121 @@ def run_orphan_case(c):
     return res
 
 
+# ---------------------------------------------------------------- children forked by the thread that HOLDS the lock
+def run_forklock_case(c):
+    """fork start method.  The parent takes the object's lock, reads the value, starts `nchild` processes from INSIDE
+    its critical section (each: one non-blocking attempt on the lock, reported at once; then n locked updates), waits
+    until every child has reported its attempt (plus a short grace period in which a child that is not kept out makes
+    progress), reads the value again, stores old + 1 and releases.  Observed: what the children's copies of the lock
+    said, whether their attempt succeeded while the parent was inside, the value at both reads, when each child made
+    its first update relative to the parent's release, the final value."""
+    import select
+    import signal
+    import time
+    import billiard
+    import sharedmem_targets as tg
+    bh.Arena = REAL_ARENA
+    bh.mmap = real_mmap
+    bh.BufferWrapper._heap = bh.Heap()
+    res = dict(case=c)
+    nchild, n = int(c.get('nchild', 2)), int(c.get('n', 30))
+    grace = float(c.get('grace', 0.25))
+
+    def on_alarm(signum, frame):
+        raise TimeoutError('fork-under-lock scenario exceeded its time limit')
+    old_handler = signal.signal(signal.SIGALRM, on_alarm)
+    signal.alarm(int(c.get('limit', 90)))
+    procs = []
+    r = w = None
+    try:
+        ctx = billiard.get_context('fork')
+        t = c.get('t', 'i')
+        targ = t if t in sc.typecode_to_type else ctype_of(t)
+        lk = {'default': None, 'RLock': ctx.RLock, 'Lock': ctx.Lock}[c.get('lock', 'default')]
+        lk = lk() if lk else None
+        kind = c['kind']
+        if kind == 'Value':
+            obj = sc.Value(targ, c.get('value', 0), ctx=ctx) if lk is None else sc.Value(targ, c.get('value', 0), lock=lk, ctx=ctx)
+        elif kind == 'Array':
+            obj = sc.Array(targ, c['init'], ctx=ctx) if lk is None else sc.Array(targ, c['init'], lock=lk, ctx=ctx)
+        elif kind == 'RawValue':          # a plain billiard lock guarding an unwrapped shared value
+            obj = sc.RawValue(targ, c.get('value', 0))
+        else:
+            raise SystemExit('bad kind %r' % (kind,))
+        lock = obj.get_lock() if kind != 'RawValue' else lk
+        res['lock_type'] = type(lock).__name__
+        res['after_fork_hooks_for_lock'] = sum(1 for k in list(billiard.util._afterfork_registry) if k[1] == id(lock))
+        through_wrapper = kind == 'Value' and res['lock_type'] == 'RLock'
+        r, w = os.pipe()
+        buf = [b'']
+        msgs = []
+
+        def pump(timeout):
+            if select.select([r], [], [], max(0.0, timeout))[0]:
+                buf[0] += os.read(r, 65536)
+            while b'\n' in buf[0]:
+                ln, buf[0] = buf[0].split(b'\n', 1)
+                try:
+                    msgs.append(json.loads(ln))
+                except ValueError:
+                    pass
+
+        def have(ev):
+            return [m for m in msgs if m.get('ev') == ev]
+
+        def wait_for(ev, need, limit):
+            end = time.monotonic() + limit
+            while len(have(ev)) < need and time.monotonic() < end:
+                pump(0.02)
+            return len(have(ev)) >= need
+        procs = [ctx.Process(target=tg.forklock_child, args=(obj, None if kind != 'RawValue' else lock, i, n, w, through_wrapper))
+                 for i in range(nchild)]
+        lock.acquire()                    # with obj.get_lock():
+        try:
+            res['value_at_acquire'] = tg.snapshot(obj)
+            for p in procs:
+                p.start()                 # forked by the thread that holds the lock
+            res['all_tried'] = wait_for('tried', nchild, 30)
+            wait_for('done', nchild, grace)       # nobody can be done on a correct tree: this is the grace period
+            res['done_while_parent_inside'] = len(have('done'))
+            res['value_before_parent_update'] = tg.snapshot(obj)
+            raw = raw_of(obj)
+            if isinstance(raw, ctypes.Array):     # the parent's read-modify-write: what it read at the start, plus one
+                for j, x in enumerate(res['value_at_acquire']):
+                    raw[j] = x + 1
+            else:
+                raw.value = res['value_at_acquire'] + 1
+            res['t_release'] = time.monotonic()
+        finally:
+            lock.release()
+        res['all_done'] = wait_for('done', nchild, 40)
+        for p in procs:
+            p.join(5)
+        res['exitcodes'] = [p.exitcode for p in procs]
+        res['tried'] = sorted(have('tried'), key=lambda m: m['id'])
+        res['done'] = sorted(have('done'), key=lambda m: m['id'])
+        res['final'] = tg.snapshot(obj)
+        res['lock_value_final'] = lock._semlock._get_value()
+    except Exception as exc:            # reported, judged by the caller
+        res['error'] = '%s: %s' % (type(exc).__name__, str(exc)[:300])
+    finally:
+        signal.alarm(0)
+        signal.signal(signal.SIGALRM, old_handler)
+        for p in procs:
+            if p._popen is not None and p.exitcode is None:
+                try:
+                    p.terminate()
+                except Exception:
+                    pass
+        for fd in (r, w):
+            if fd is not None:
+                try:
+                    os.close(fd)
+                except OSError:
+                    pass
+    return res
+
+
 # ---------------------------------------------------------------- real processes (thorough)
 def run_procs(c):
     import billiard
@@ -814,6 +929,8 @@ if __name__ == '__main__':
         res = [run_chain_case(c) for c in req['cases']]
     elif req['mode'] == 'orphan':
         res = [run_orphan_case(c) for c in req['cases']]
+    elif req['mode'] == 'forklock':
+        res = [run_forklock_case(c) for c in req['cases']]
     else:
         res = run_procs(req)
     bh.Arena = REAL_ARENA
